@@ -3,6 +3,7 @@
 # (vp run), writing evidence and replays into the snapshot. usage: thorough_all.sh <VERIF_SEED> [ids...]
 export GOFLAGS=-mod=mod GOPROXY=off GOSUMDB=off GOTOOLCHAIN=local
 export VERIF_DIR=$PWD VERIF_SEED=${1:-2}
+[ -n "$VP_RUN_REPO" ] && export VERIF_REPO=$VP_RUN_REPO
 shift
 ids=${@:-C05 C06 C16 C03 C04 C09 C10 C13 C14 C07 C02 C01 C17 C18}
 /opt/veriftools/go1.26.8/bin/go build -o bin/vcheck ./cmd/vcheck || exit 2
